@@ -1489,8 +1489,10 @@ class Interp:
 
     def _e_BoolOp(self, e, env):
         v = None
-        for x in e.values:
+        for i_, x in enumerate(e.values):
             v = self.eval(x, env)
+            if i_ == len(e.values) - 1:
+                return v  # the last operand is the result whatever its truth value
             t = self.truth(v)
             if isinstance(e.op, ast.And) and not t:
                 return v
